@@ -140,9 +140,8 @@ def generate(unit, reg, canaries=True, assume_not=(), assume=None):
             else:
                 ecls, cond = allowed
                 if cond is not True:
-                    s2 = entry.fork()
-                    s2.pc = s.pc
-                    c = sx.eval_spec(cond, s2)
+                    # evaluated in the state at the raise (old(...) reaches the entry state)
+                    c = sx.eval_spec(cond, s)
                     sx.oblige(s, "%s/exc:%s:only-if" % (sx.cur_func, ecls), c, "exc", fdef)
                 for (name, src) in con.exc_ensures.get(ecls, []):
                     c = sx.eval_spec(src, s)
@@ -211,7 +210,7 @@ def _collect_len_terms(e, acc, seen):
         return
     if z3.is_app(e):
         d = e.decl()
-        if d.name() == "n" and e.num_args() == 1 and str(e.arg(0).sort()).startswith("List_"):
+        if d.name().startswith("len") and e.num_args() == 1 and str(e.arg(0).sort()).startswith("List_"):
             acc.append(e)
         if d.name() == "str.len":
             acc.append(e)
@@ -277,11 +276,16 @@ def bounded_refute(ob, timeout_ms=5000, bounds=(1, 2, 3)):
         for f in fs:
             s.add(f)
         for t in lens:
-            if not _has_free_var(t, cache):
-                s.add(t <= (N if t.decl().name() == "n" else 8 * N))
+            if not _has_free_var(t, cache) and t.decl().name().startswith("len"):
+                s.add(t <= N)
         r = s.check()
         if r == z3.sat:
             return N, s.model()
+        if r == z3.unknown and has_strings(fs):
+            # string constraints: cvc5 decides many quantifier-free queries z3's sequence solver leaves open
+            r2, _ = check_cvc5(s, timeout_ms)
+            if r2 == "sat":
+                return N, None
     return None, None
 
 
@@ -309,7 +313,8 @@ def discharge(ob, timeout_ms=10000, use_cvc5=True, both=False):
             for bound in (2, 4):
                 s.push()
                 for t in lens:
-                    s.add(t <= bound)
+                    if t.decl().name().startswith("len"):
+                        s.add(t <= bound)
                 s.set("timeout", 2000)
                 if s.check() == z3.sat:
                     ob.model = s.model()
@@ -323,9 +328,9 @@ def discharge(ob, timeout_ms=10000, use_cvc5=True, both=False):
         t0 = time.time()
         N, m = bounded_refute(ob)
         ob.seconds += time.time() - t0
-        if m is not None:
+        if N is not None:
             ob.status = "refuted"
-            ob.backend = "z3 (bounded model search, lengths<=%d)" % N
+            ob.backend = ("z3" if m is not None else "cvc5") + " (bounded model search, lengths<=%d)" % N
             ob.model = m
             return ob
         if use_cvc5 and "spec_" not in s.sexpr()[:200000]:
@@ -451,10 +456,28 @@ def run_unit(unit_key, sidecar_modules, tier="quick", timeout_ms=None, pass_name
             rep["props"] = unit.props
         tmo = timeout_ms or (10000 if tier == "quick" else 60000)
         only = os.environ.get("PYVC_ONLY")
+        refuted_canaries = set()
         for ob in sx.obligations:
             if only and only not in ob.name:
                 continue
+            if ob.kind == "canary":
+                if ob.name in refuted_canaries:
+                    continue  # one refuting path is enough for a must-fail canary
+                r, s_, dt = check_z3(ob.hyps, z3.Not(ob.claim), 2000)
+                ob.seconds, ob.backend = dt, "z3"
+                if r == z3.sat:
+                    ob.status = "refuted"
+                    refuted_canaries.add(ob.name)
+                else:
+                    ob.status = "discharged" if r == z3.unsat else "unknown"
+                continue
             discharge(ob, tmo, both=(tier == "thorough"))
+        # canaries nobody refuted quickly: try harder (bounded model search)
+        for ob in sx.obligations:
+            if ob.kind == "canary" and ob.name not in refuted_canaries and ob.status == "unknown" and not (only and only not in ob.name):
+                discharge(ob, 5000, use_cvc5=False)
+                if ob.status == "refuted":
+                    refuted_canaries.add(ob.name)
             d = {
                 "name": ob.name, "kind": ob.kind, "status": ob.status, "backend": ob.backend, "seconds": round(ob.seconds, 3),
                 "line": ob.loc, "note": ob.note, "reason": ob.reason, "props": ob.props or unit.props,
